@@ -1,0 +1,385 @@
+//go:build verif
+
+package vhost
+
+import (
+	"net"
+	"net/http"
+	"strings"
+
+	"github.com/fatedier/frp/verif"
+)
+
+//verif:guarded Routers mutex indexByDomain
+
+// Monitor invariant of the route table. For every (domain, user) list: entries
+// carry their own keys, domains are stored lower-case, and locations are
+// strictly descending - hence unique, and (with the prefix/order facts about
+// strings) the first entry that is a prefix of a path is the longest one.
+//
+//verif:invariant Routers mutex
+func (r *Routers) verifInvEntries(d, u string, i int) bool {
+	if r.indexByDomain == nil {
+		return false
+	}
+	byUser, ok := r.indexByDomain[d]
+	if !ok {
+		return true
+	}
+	if byUser == nil || strings.ToLower(d) != d {
+		return false
+	}
+	vrs, ok := byUser[u]
+	if !ok || i < 0 || i >= len(vrs) {
+		return true
+	}
+	a := vrs[i]
+	return a != nil && a.domain == d && a.httpUser == u
+}
+
+//verif:invariant Routers mutex
+func (r *Routers) verifInvSorted(d, u string, i, j int) bool {
+	byUser, ok := r.indexByDomain[d]
+	if !ok {
+		return true
+	}
+	vrs, ok := byUser[u]
+	if !ok || i < 0 || j <= i || j >= len(vrs) {
+		return true
+	}
+	return strings.Compare(vrs[i].location, vrs[j].location) > 0
+}
+
+//verif:contract ~/pkg/util/vhost.NewRouters
+//verif:props C06
+func verif_NewRouters(d, u string, i, j int) {
+	r := NewRouters()
+	verif.Ensures(r != nil && r.verifInvEntries(d, u, i) && r.verifInvSorted(d, u, i, j), "establishes_invariant")
+	verif.Ensures(!verif.Has(r.indexByDomain, d), "empty")
+}
+
+// Get: "within a host ... the longest location prefix - and never a route that
+// does not match". The returned route belongs to the (lower-cased host, user)
+// list, its location is a prefix of the path, and no route of that list with a
+// longer location is a prefix of the path; not found means no route of the
+// list matches.
+//
+//verif:contract (*~/pkg/util/vhost.Routers).Get
+//verif:props C06
+func verif_Routers_Get(r *Routers, host, path, httpUser string, k int) {
+	d := strings.ToLower(host)
+	byUser := r.indexByDomain[d]
+	vrs := byUser[httpUser]
+	ok2 := verif.Has(r.indexByDomain, d) && verif.Has(byUser, httpUser)
+	vr, exist := r.Get(host, path, httpUser)
+	if exist {
+		verif.Ensures(ok2 && vr != nil, "found_route_is_in_the_table")
+		verif.Ensures(vr.domain == d && vr.httpUser == httpUser, "found_route_has_requested_host_and_user")
+		verif.Ensures(strings.HasPrefix(path, vr.location), "found_route_matches_path")
+		if ok2 && k >= 0 && k < len(vrs) && strings.HasPrefix(path, vrs[k].location) {
+			verif.Ensures(len(vrs[k].location) <= len(vr.location), "no_longer_matching_location_exists")
+		}
+	} else if ok2 && k >= 0 && k < len(vrs) {
+		verif.Ensures(!strings.HasPrefix(path, vrs[k].location), "not_found_means_nothing_matches")
+	}
+}
+
+//verif:loop (*~/pkg/util/vhost.Routers).Get 1 inv=verifLoopGet args=vrs,path,rangeindex
+func verifLoopGet(vrs []*Router, path string, idx int, m int) bool {
+	return m < 0 || m > idx || m >= len(vrs) || !strings.HasPrefix(path, vrs[m].location)
+}
+
+// ------------------------------------------------------------ C07: password-protected http routes
+
+const (
+	evCheckAuth = "HTTPReverseProxy).CheckAuth"
+	evGetRoute  = "HTTPReverseProxy).GetRouteConfig"
+	evGetVhost  = "HTTPReverseProxy).getVhost"
+)
+
+// getVhost: a route of the table or not found (selection order: see C06 units).
+//
+//verif:contract (*~/pkg/util/vhost.HTTPReverseProxy).getVhost
+//verif:props C06 C07
+func verif_getVhost(rp *HTTPReverseProxy, domain, location, routeByHTTPUser string) {
+	verif.ResetEvents()
+	vr, ok := rp.getVhost(domain, location, routeByHTTPUser)
+	verif.Ensures(!ok || vr != nil, "found_route_nonnil")
+	const evGet = "Routers).Get"
+	// selection order: exact host first; for every host candidate the route
+	// restricted to the request's http user before the unrestricted one; the
+	// first hit is returned; the catch-all "*" is asked last
+	if ok {
+		verif.Ensures(verif.RetBool(evGet, 1) && vr == verif.Ret[*Router](evGet, 0), "returns_the_hit_of_its_last_lookup")
+	} else {
+		verif.Ensures(verif.Called(evGet) && !verif.RetBool(evGet, 1), "not_found_only_after_a_miss")
+		verif.Ensures(verif.NthArg[string](evGet, verif.CallCount(evGet)-1, 1) == "*" && verif.NthArg[string](evGet, verif.CallCount(evGet)-1, 3) == "", "catch_all_is_asked_last")
+	}
+	if ok {
+		_, isRC := vr.payload.(*RouteConfig)
+		verif.Assume(isRC, "every payload registered in the http reverse proxy's route table is a *RouteConfig (Register, HTTPGroup.Register)")
+	}
+}
+
+// Host canonicalisation is a deterministic function of the host text; its own
+// behaviour is specified in the C06 units.
+//
+//verif:det-fn ~/pkg/util/http.CanonicalHost
+
+// The http user and password of a request are a deterministic function of the
+// (read-only) request: both the credential check and the routing call it.
+//
+//verif:det-fn ~/pkg/util/vhost.getRequestAuth
+
+// CheckAuth: true iff the selected route has no credentials, or user and
+// password are both exactly the configured ones.
+//
+//verif:contract (*~/pkg/util/vhost.HTTPReverseProxy).CheckAuth
+//verif:props C07
+func verif_CheckAuth(rp *HTTPReverseProxy, domain, location, routeByHTTPUser, user, passwd string) {
+	verif.ResetEvents()
+	res := rp.CheckAuth(domain, location, routeByHTTPUser, user, passwd)
+	verif.Ensures(verif.CallCount(evGetVhost) == 1 && verif.CalledWith(evGetVhost, 1, domain) && verif.CalledWith(evGetVhost, 2, location) && verif.CalledWith(evGetVhost, 3, routeByHTTPUser), "selects_route_of_the_request")
+	vr := verif.Ret[*Router](evGetVhost, 0)
+	if verif.RetBool(evGetVhost, 1) {
+		rc := vr.payload.(*RouteConfig)
+		open := rc.Username == "" && rc.Password == ""
+		verif.Ensures(res == (open || (rc.Username == user && rc.Password == passwd)), "exact_credentials_or_unprotected")
+	}
+}
+
+// ServeHTTP: a request is handed to the forwarding machinery only after the
+// credential check accepted it, and "the route used to decide the credential
+// check is the same route used to forward the request": host, path and http
+// user given to CheckAuth are those used for the route lookup of the forwarded
+// request.
+//
+//verif:contract (*~/pkg/util/vhost.HTTPReverseProxy).ServeHTTP
+//verif:props C07
+func verif_ServeHTTP(rp *HTTPReverseProxy, rw http.ResponseWriter, req *http.Request) {
+	verif.ResetEvents()
+	rp.ServeHTTP(rw, req)
+	const evFwd = "net/http.Handler).ServeHTTP"
+	const evConnect = "HTTPReverseProxy).connectHandler"
+	if verif.Called(evFwd) || verif.Called(evConnect) {
+		verif.Ensures(verif.Called(evCheckAuth) && verif.RetBool(evCheckAuth, 0), "forwarded_only_after_credentials_accepted")
+		verif.Ensures(verif.Called(evGetRoute), "forwarded_request_carries_its_route")
+		verif.Ensures(verif.NthArg[string](evCheckAuth, 0, 1) == verif.NthArg[string](evGetRoute, 0, 1), "same_host_checked_and_forwarded")
+		verif.Ensures(verif.NthArg[string](evCheckAuth, 0, 2) == verif.NthArg[string](evGetRoute, 0, 2), "same_path_checked_and_forwarded")
+		verif.Ensures(verif.NthArg[string](evCheckAuth, 0, 3) == verif.NthArg[string](evGetRoute, 0, 3), "same_http_user_checked_and_forwarded")
+		verif.Ensures(verif.NthArg[string](evCheckAuth, 0, 3) == verif.NthArg[string](evCheckAuth, 0, 4), "credential_user_is_route_user")
+	} else {
+		verif.Ensures(!verif.Called(evCheckAuth) || !verif.RetBool(evCheckAuth, 0), "refused_only_when_check_failed")
+	}
+}
+
+// ------------------------------------------------------------ the byte-sniffing muxer (https, tcpmux)
+
+// The protocol-specific hooks of a Muxer, as seen from the generic code.
+//
+//verif:fieldfn Muxer vhostFunc
+func verifSpec_vhostFunc(c net.Conn) (net.Conn, map[string]string, error) {
+	return verif.Any[net.Conn](), verif.Any[map[string]string](), verif.Any[error]()
+}
+
+//verif:fieldfn Muxer checkAuth
+func verifSpec_checkAuth(c net.Conn, username, password string, reqInfoMap map[string]string) (bool, error) {
+	return verif.Any[bool](), verif.Any[error]()
+}
+
+//verif:fieldfn Muxer failHook
+func verifSpec_failHook(c net.Conn) {}
+
+//verif:fieldfn Muxer successHook
+func verifSpec_successHook(c net.Conn, reqInfoMap map[string]string) error { return verif.Any[error]() }
+
+//verif:fieldfn Muxer rewriteHost
+func verifSpec_rewriteHost(c net.Conn, rewriteHost string) (net.Conn, error) {
+	return verif.Any[net.Conn](), verif.Any[error]()
+}
+
+const (
+	evGetListener = "Muxer).getListener"
+	evMuxAuth     = "fieldfn:H.pkg.util.vhost.Muxer.checkAuth"
+	evVhostFunc   = "fieldfn:H.pkg.util.vhost.Muxer.vhostFunc"
+	evFailHook    = "fieldfn:H.pkg.util.vhost.Muxer.failHook"
+)
+
+// Every payload registered in a Muxer's route table is a *Listener (Muxer.Listen
+// is the only writer): the unchecked assertions in the lookup closure rely on it.
+//
+//verif:assume-typeassert (*~/pkg/util/vhost.Muxer).getListener$1
+
+//verif:contract (*~/pkg/util/vhost.Muxer).getListener
+//verif:props C06 C07
+func verif_getListener(v *Muxer, name, path, httpUser string) {
+	verif.ResetEvents()
+	l, ok := v.getListener(name, path, httpUser)
+	verif.Ensures(ok || l == nil, "not_found_yields_no_listener")
+	const evGet = "Routers).Get"
+	if !ok {
+		verif.Ensures(verif.Called(evGet) && !verif.RetBool(evGet, 1), "not_found_only_after_a_miss")
+		verif.Ensures(verif.NthArg[string](evGet, verif.CallCount(evGet)-1, 1) == "*" && verif.NthArg[string](evGet, verif.CallCount(evGet)-1, 3) == "", "catch_all_is_asked_last")
+	}
+}
+
+// handle: a connection is handed to a proxy's listener only if it is the
+// listener selected for the lower-cased host of the request, and - when that
+// listener has credentials - only after the protocol's credential check
+// accepted them; an unmatched request goes to the fail hook and reaches no
+// listener; a connection that cannot be handed over is closed, not left open.
+//
+//verif:contract (*~/pkg/util/vhost.Muxer).handle
+//verif:props C06 C07 C11
+func verif_Muxer_handle(v *Muxer, c net.Conn) {
+	verif.ResetEvents()
+	v.handle(c)
+	l := verif.Ret[*Listener](evGetListener, 0)
+	found := verif.Called(evGetListener) && verif.RetBool(evGetListener, 1)
+	if verif.Called("send") {
+		verif.Ensures(found, "handed_over_only_to_a_selected_listener")
+		verif.Ensures(verif.SentOn(l.accept), "handed_to_the_selected_listener")
+		verif.Ensures(verif.CallCount("send") == 1, "handed_over_once")
+		info := verif.Ret[map[string]string](evVhostFunc, 1)
+		verif.Ensures(verif.CalledWith(evGetListener, 1, strings.ToLower(info["Host"])), "selected_by_lower_cased_host")
+		if l.username != "" && l.mux.checkAuth != nil {
+			verif.Ensures(verif.Called(evMuxAuth) && verif.RetBool(evMuxAuth, 0) && verif.RetErr(evMuxAuth, 1) == nil, "credentials_accepted_before_hand_over")
+			verif.Ensures(verif.CalledWith(evMuxAuth, 1, l.username) && verif.CalledWith(evMuxAuth, 2, l.password), "checked_against_the_listeners_credentials")
+		}
+	}
+	if verif.Called(evGetListener) && !verif.RetBool(evGetListener, 1) {
+		verif.Ensures(verif.Called(evFailHook) && !verif.Called("send"), "unmatched_request_refused")
+	}
+	if verif.Recovered() {
+		verif.Ensures(verif.Called("net.Conn).Close"), "failed_hand_over_closes_connection")
+	}
+}
+
+// Listener.Close removes exactly the listener's own route triple.
+//
+//verif:contract (*~/pkg/util/vhost.Listener).Close
+//verif:props C06 C10
+func verif_Listener_Close(l *Listener) {
+	name, loc, user := l.name, l.location, l.routeByHTTPUser
+	verif.Requires(l.accept != nil && !verif.Closed(l.accept), "open_listener")
+	verif.ResetEvents()
+	l.Close()
+	verif.Ensures(verif.CallCount("Routers).Del") == 1 && verif.CalledWith("Routers).Del", 1, name) && verif.CalledWith("Routers).Del", 2, loc) && verif.CalledWith("Routers).Del", 3, user), "removes_own_route_triple")
+	verif.Ensures(verif.Closed(l.accept), "accept_queue_closed")
+}
+
+// Listener.Accept: a dequeued connection is returned (wrapped) or, when the
+// host rewrite fails, closed - never dropped open.
+//
+//verif:contract (*~/pkg/util/vhost.Listener).Accept
+//verif:props C11 C10
+func verif_Listener_Accept(l *Listener) {
+	verif.ResetEvents()
+	conn, err := l.Accept()
+	if verif.RetBool("recv", 0) {
+		if err != nil {
+			verif.Ensures(verif.CalledWith("net.Conn).Close", 0, verif.NthArg[net.Conn]("recv", 0, 1)), "dequeued_connection_closed_on_failure")
+		} else {
+			verif.Ensures(conn != nil, "dequeued_connection_returned")
+		}
+	} else {
+		verif.Ensures(err != nil, "closed_listener_is_an_error")
+	}
+}
+
+// ------------------------------------------------------------ C06: registering and removing routes
+
+// Each domain has its own per-user table (no two domains share one).
+//
+//verif:invariant Routers mutex
+func (r *Routers) verifInvOwnTables(d1, d2 string) bool {
+	t1, ok1 := r.indexByDomain[d1]
+	t2, ok2 := r.indexByDomain[d2]
+	return !ok1 || !ok2 || d1 == d2 || !verif.SameObject(t1, t2)
+}
+
+// exist: "not found" means no entry of the (host, user) list has this location.
+//
+//verif:contract (*~/pkg/util/vhost.Routers).exist
+//verif:props C06
+func verif_Routers_exist(r *Routers, host, path, httpUser string, k int) {
+	byUser := r.indexByDomain[host]
+	vrs := byUser[httpUser]
+	ok2 := verif.Has(r.indexByDomain, host) && verif.Has(byUser, httpUser)
+	verif.AssumeHeld(&r.mutex)
+	route, found := r.exist(host, path, httpUser)
+	if found {
+		verif.Ensures(route != nil && route.location == path, "found_entry_has_the_location")
+	} else if ok2 && k >= 0 && k < len(vrs) {
+		verif.Ensures(vrs[k].location != path, "not_found_means_no_entry_has_the_location")
+	}
+}
+
+//verif:loop (*~/pkg/util/vhost.Routers).exist 1 inv=verifLoopExist args=routers,path,rangeindex
+func verifLoopExist(routers []*Router, path string, idx int, m int) bool {
+	return m < 0 || m > idx || m >= len(routers) || routers[m].location != path
+}
+
+// Add: "registering a route that duplicates an existing (host, location, user)
+// triple is refused"; a refusal changes nothing; the table invariant (keys,
+// lower-case domains, strictly descending locations) is re-established.
+//
+//verif:contract (*~/pkg/util/vhost.Routers).Add
+//verif:props C06 C10
+func verif_Routers_Add(r *Routers, domain, location, httpUser string, payload any, k int) {
+	d := strings.ToLower(domain)
+	byUser := r.indexByDomain[d]
+	vrs := byUser[httpUser]
+	ok2 := verif.Has(r.indexByDomain, d) && verif.Has(byUser, httpUser)
+	n0 := len(vrs)
+	dup := ok2 && k >= 0 && k < n0 && vrs[k].location == location
+	err := r.Add(domain, location, httpUser, payload)
+	if dup {
+		verif.Ensures(err == ErrRouterConfigConflict, "duplicate_triple_refused")
+	}
+	if err != nil {
+		verif.Ensures(err == ErrRouterConfigConflict, "only_conflicts_are_refused")
+		if ok2 {
+			verif.Ensures(len(r.indexByDomain[d][httpUser]) == n0, "refusal_changes_nothing")
+		}
+	} else {
+		verif.Ensures(verif.Has(r.indexByDomain, d) && verif.Has(r.indexByDomain[d], httpUser), "list_exists_after_add")
+		verif.Ensures(len(r.indexByDomain[d][httpUser]) == n0+1, "exactly_one_route_added")
+	}
+}
+
+// Del: no route with the removed (host, location, user) triple remains; the
+// table invariant is re-established.
+//
+//verif:contract (*~/pkg/util/vhost.Routers).Del
+//verif:props C06 C10
+func verif_Routers_Del(r *Routers, domain, location, httpUser string, k int) {
+	d := strings.ToLower(domain)
+	r.Del(domain, location, httpUser)
+	if byUser, ok := r.indexByDomain[d]; ok {
+		if vrs, ok := byUser[httpUser]; ok && k >= 0 && k < len(vrs) {
+			verif.Ensures(vrs[k].location != location, "removed_triple_is_gone")
+		}
+	}
+}
+
+//verif:loop (*~/pkg/util/vhost.Routers).Del 1 inv=verifLoopDel args=newVrs,vrs,domain,httpUser,location,rangeindex
+func verifLoopDel(newVrs, vrs []*Router, domain, httpUser, location string, idx int, a, b int) bool {
+	if idx < -1 || idx >= len(vrs) {
+		return false
+	}
+	if a < 0 || a >= len(newVrs) {
+		return true
+	}
+	na := newVrs[a]
+	if na == nil || na.location == location || na.domain != domain || na.httpUser != httpUser {
+		return false
+	}
+	if b > idx && b < len(vrs) && !(strings.Compare(na.location, vrs[b].location) > 0) {
+		return false // kept routes sort before every route not looked at yet
+	}
+	if b > a && b < len(newVrs) && !(strings.Compare(na.location, newVrs[b].location) > 0) {
+		return false // kept routes stay strictly descending
+	}
+	return true
+}
